@@ -5,6 +5,7 @@ from numpy.linalg import norm
 from sklearn.utils import check_array
 from skglm.solvers.base import BaseSolver
 from skglm.utils.validation import check_attrs
+from skglm import _verif
 
 
 class MultiTaskBCD(BaseSolver):
@@ -59,6 +60,9 @@ class MultiTaskBCD(BaseSolver):
         else:
             datafit.initialize(X, Y)
             lipschitz = datafit.get_lipschitz(X, Y)
+        if _verif.ON:
+            _verif.emit("init", solver=self, X=X, y=Y, datafit=datafit,
+                        penalty=penalty, w=W, Xw=XW)
 
         for t in range(self.max_iter):
             if is_sparse:
@@ -74,6 +78,8 @@ class MultiTaskBCD(BaseSolver):
                     W, grad, lipschitz, datafit, penalty, all_feats
                 )
             stop_crit = np.max(opt)
+            if _verif.ON:
+                _verif.emit("outer", t=t, stop_crit=stop_crit, w=W, Xw=XW)
             if self.verbose:
                 print(f"Stopping criterion max violation: {stop_crit:.2e}")
             if stop_crit <= self.tol:
@@ -86,6 +92,8 @@ class MultiTaskBCD(BaseSolver):
             opt[norm(W[:n_features], axis=1) != 0] = np.inf  # TODO check
             ws = np.argpartition(opt, -ws_size)[-ws_size:]
             # is equivalent to ws = np.argsort(kkt)[-ws_size:]
+            if _verif.ON:
+                _verif.emit("ws", t=t, ws=ws)
 
             if self.use_acc:
                 last_K_w = np.zeros([K + 1,
@@ -111,6 +119,8 @@ class MultiTaskBCD(BaseSolver):
                     intercept_old = W[-1, :].copy()
                     W[-1, :] -= datafit.intercept_update_step(Y, XW)
                     XW += (W[-1, :] - intercept_old)
+                if _verif.ON:
+                    _verif.emit("epoch", t=t, epoch=epoch, w=W, Xw=XW)
 
                 if self.use_acc:
                     if self.fit_intercept:
@@ -143,6 +153,8 @@ class MultiTaskBCD(BaseSolver):
                         except np.linalg.LinAlgError:
                             if max(self.verbose - 1, 0):
                                 print("----------Linalg error")
+                if _verif.ON:
+                    _verif.emit("aa", t=t, epoch=epoch, w=W, Xw=XW)
 
                 if epoch > 0 and epoch % 10 == 0:
                     p_obj = datafit.value(Y, W[ws, :], XW) + penalty.value(W)
@@ -161,6 +173,9 @@ class MultiTaskBCD(BaseSolver):
                         )
 
                     stop_crit_in = np.max(opt_ws)
+                    if _verif.ON:
+                        _verif.emit("inner", t=t, epoch=epoch,
+                                    stop_crit_in=stop_crit_in)
                     if max(self.verbose - 1, 0):
                         print(f"Epoch {epoch + 1}, objective {p_obj:.10f}, "
                               f"stopping crit {stop_crit_in:.2e}")
@@ -173,6 +188,8 @@ class MultiTaskBCD(BaseSolver):
                                 print("Early exit")
                             break
             obj_out.append(p_obj)
+            if _verif.ON:
+                _verif.emit("record", t=t, p_obj=p_obj, w=W, Xw=XW)
         return W, np.array(obj_out), stop_crit
 
     def path(self, X, Y, datafit, penalty, alphas, W_init=None, return_n_iter=False):
@@ -223,6 +240,8 @@ class MultiTaskBCD(BaseSolver):
                     p0 = 10
             sol = self.solve(X, Y, datafit, penalty, W, XW)
             coefs[:, :, t], stop_crits[t] = sol[0], sol[2]
+            if _verif.ON:
+                _verif.emit("path_step", t=t, alpha=alpha, sol=sol, w=W, Xw=XW)
 
             if return_n_iter:
                 n_iters[t] = len(sol[1])
